@@ -165,3 +165,62 @@ def slot_sweep(per_key: int = 3, n_docs: int = 500) -> Iterator[dict]:
                     op = None
                 if op is not None:
                     yield {'dirs': chunks, 'ops': [op], 'sweep': True}
+
+
+def insert_then_edit(per_key: int = 2) -> Iterator[dict]:
+    """Two-step histories: every way of putting a tree-valued node into a list (each list_sweep case whose operation inserts one - index, slice,
+    extended slice, extend, +=, through the raw list or a node view - plus whole-field assignment), followed by one edit *through the inserted
+    node*: each absent optional slot of it filled, each present one cleared, a value changed (at most `per_key` per (route, class, slot, presence)).
+    What the first step leaves behind (store binding, cached views, first/last token) is exercised by the second."""
+    import collections
+    from vf.obs import core as O
+    from vf.props import common
+    from autobean_refactor.models import base
+    rnd = random.Random(20261005)
+    g = L.G(rnd, L.Cfg(exotic=0.0, hazard_text=0.02, crlf=0.0, ws_noise=0.0, comments=0.2))
+    count: collections.Counter = collections.Counter()
+    wanted = {'opt', 'copt', 'uopt', 'oval', 'rval', 'meta'}
+
+    def firsts() -> Iterator[dict]:
+        for case in list_sweep(include_views=True):
+            op = case['ops'][0]
+            if op.get('donors'):
+                yield case
+        for cname, mi, rawprop, views, text in FIELDS:
+            if text is None:
+                continue
+            for n in (0, 2):
+                yield {'dirs': _doc(text(n) + '\n' + text(3).replace('2000-01-01', '2000-01-05')), 'prime': n == 0, 'sweep': True,
+                       'ops': [{'f': 'list', 'cls': cname, 'mi': 0, 'prop': rawprop, 'op': 'assign', 'src': {'cls': cname, 'mi': 1}}]}
+    for case in firsts():
+        op = case['ops'][0]
+        try:
+            root = common.parse_file(L.text_of(case['dirs']))
+            a = OPS.resolve(root, op)
+            a.run()
+        except Exception:  # noqa: BLE001
+            continue
+        ins = [x for x in a.inserted if isinstance(x, base.RawTreeModel) and not isinstance(x, O.Repeated)]
+        if not ins:
+            continue
+        route = f"{op['f']}:{op['op']}:{'step' if op.get('k') not in (None, 1) else ''}"
+        inside = {id(m) for x in ins for m, _ in O.walk(x) if isinstance(m, base.RawTreeModel)}
+        for m, p, cname, mi in OPS.candidates(root, wanted):
+            if id(m) not in inside:
+                continue
+            try:
+                rn = OPS.raw_name(p) if p.kind in ('rval', 'oval') else p.name
+                present = p.kind == 'meta' or getattr(m, rn or p.name) is not None
+            except Exception:  # noqa: BLE001
+                continue
+            key = (route, cname, p.name, present)
+            if count[key] >= per_key:
+                continue
+            count[key] += 1
+            shape = None if p.kind == 'meta' else ('none' if present and p.kind != 'rval' else 'donor' if p.kind in ('opt', 'copt', 'uopt') else 'value')
+            try:
+                op2 = OPS.gen_for(g, root, m, p, cname, mi, shape=shape)
+            except Exception:  # noqa: BLE001
+                op2 = None
+            if op2 is not None:
+                yield {**case, 'ops': [op, op2]}
